@@ -9,6 +9,7 @@ import Ucan.Driver.Token
 import Ucan.Driver.Container
 import Ucan.Driver.Meta
 import Ucan.Driver.Immut
+import Ucan.Driver.CidStream
 /-!
 Line-protocol driver: one case per input line, one canonical answer per output line.
 Imports models and specs only (core Lean), never lemmas or property files.
@@ -31,6 +32,7 @@ def dispatch (toks : List String) : String :=
       else if t.startsWith "ctn." then runContainer toks
       else if t.startsWith "meta." then runMeta toks
       else if t.startsWith "imm." then runImmut toks
+      else if t.startsWith "cids." then runCidStream toks
       else if t.startsWith "go." then some "ok"   -- Go-side oracle checks: the model has nothing to add
       else none
   match r with
